@@ -11,6 +11,8 @@ pub trait Flt: DualNumFloat + DualNum<Self, Inner = Self> + Copy + Default + Par
     /// precision in bits
     const PREC: i32;
     const NAME: &'static str;
+    /// smallest positive (denormal) value
+    const TINY: f64;
     fn to64(self) -> f64;
     fn from64(x: f64) -> Self;
     fn bits(self) -> u64;
@@ -20,6 +22,7 @@ impl Flt for f64 {
     const U: f64 = 1.1102230246251565e-16;
     const PREC: i32 = 53;
     const NAME: &'static str = "f64";
+    const TINY: f64 = 5e-324;
     fn to64(self) -> f64 {
         self
     }
@@ -37,6 +40,7 @@ impl Flt for f32 {
     const U: f64 = 5.960464477539063e-8;
     const PREC: i32 = 24;
     const NAME: &'static str = "f32";
+    const TINY: f64 = 1.401298464324817e-45;
     fn to64(self) -> f64 {
         self as f64
     }
